@@ -1262,11 +1262,20 @@ class Mailbox:
         # request _AND_ if the size of the mailbox changes. These can be
         # sent to any client, idling, executing a command, or otherwise.
         #
+        # However a client that still has EXPUNGEs pending must see those
+        # first: the new message count already accounts for the expunged
+        # messages, and telling the client the count before the EXPUNGEs would
+        # leave it with the wrong idea of which message is which. For such a
+        # client the EXISTS and RECENT are queued behind its pending EXPUNGEs.
+        #
         notifications = []
         notifications.append(f"* {num_msgs} EXISTS\r\n")
         notifications.append(f"* {num_recent} RECENT\r\n")
         for c in self.clients.values():
-            await c.client.push(*notifications)
+            if c.pending_expunges():
+                c.pending_notifications.extend(notifications)
+            else:
+                await c.client.push(*notifications)
 
         self.num_msgs = num_msgs
         self.num_recent = num_recent
